@@ -5,6 +5,7 @@ from engine import tlc
 
 
 def body(c):
+    c.spec_cases_replayed = True
     from joblib.func_inspect import filter_args
     maxn = 4 if c.quick else 5
     states = argbind.enumerate_states(c, maxn)
